@@ -477,7 +477,24 @@ def one_run(check, seed, i, cfg):
         h = gen_history(rng, ms["kinds"], cfg["maxlen"])
         sk = []
         t_model = run_history(model, h, sm, record_skips=sk)
-        t_sut = run_history(sut, h, sm, skips=set(sk))
+        mon = None
+        if cfg.get("observer"):
+            from . import tracemon
+            mon = tracemon.Monitor("profile" if (i + j) % 2 == 0 else "trace", ms["name"] + ".py", ms.setdefault("spans", tracemon.function_spans(ms["src"])),
+                                   ms.setdefault("f19", sorted(tracemon.funcs_returning_inside_try_finally(ms["src"]))))
+            mon.install()
+        try:
+            t_sut = run_history(sut, h, sm, skips=set(sk))
+        finally:
+            obs_problems = mon.finish() if mon else []
+        if mon:
+            res["probes"]["events_" + mon.mode] = res["probes"].get("events_" + mon.mode, 0) + mon.events
+            res["probes"]["line_events"] = res["probes"].get("line_events", 0) + mon.line_events
+            if mon.known_f19:
+                res["probes"]["known_F19_return_event_before_finally"] = res["probes"].get("known_F19_return_event_before_finally", 0) + 1
+            if obs_problems and "violation" not in res:
+                res["violation"] = {"klass": "trace-events:" + obs_problems[0]["what"], "detail": {"mode": mon.mode, "problems": obs_problems},
+                                    "history": h, "module": ms["name"], "src": ms["src"], "observer_mode": mon.mode}
         if sk:
             res["probes"]["quarantined_F5_throws"] = res["probes"].get("quarantined_F5_throws", 0) + len(sk)
         res["n"] += 1
@@ -501,7 +518,7 @@ def one_run(check, seed, i, cfg):
                 res["faults"][o] = res["faults"].get(o, 0) + 1
         if len(ops) >= 2 and any(o in ("throw", "close", "del") for o in ops):
             res["nontrivial_digests"].append(core.digest([ms["name"], h]))
-        if d is not None and "violation" not in res:
+        if d is not None and "violation" not in res and not cfg.get("observer"):
             res["violation"] = {"klass": "trace-differs-from-cpython", "detail": {"event": d[0], "model": d[1], "sut": d[2]},
                                 "history": h, "module": ms["name"], "src": ms["src"]}
         if j == 0 and i % 400 == 0:
@@ -582,9 +599,9 @@ def replay(payload):
     return st == "crash" or (st == "ok" and r is not None)
 
 
-def explore(rep, seed, tier, tag, cflags=(), directives=None, budget=None, nruns=None):
+def explore(rep, seed, tier, tag, cflags=(), directives=None, budget=None, nruns=None, extra_cfg=None, nmods=None, prop=None):
     """Shared by C23 and the riders: build modules, run histories, collect violations."""
-    nmods = 6 if tier == "quick" else 16
+    nmods = nmods or (6 if tier == "quick" else 16)
     mods, errors = build_modules(seed, nmods, 16, tag, cflags, directives)
     for e in errors:
         rep.probes["workload_modules_not_built"] = rep.probes.get("workload_modules_not_built", 0) + 1
@@ -593,12 +610,13 @@ def explore(rep, seed, tier, tag, cflags=(), directives=None, budget=None, nruns
         rep.harness_errors.append("no workload module could be built: %s" % (errors[:1],))
         return [], mods
     cfg = {"modules": mods, "histories_per_run": 50, "maxlen": 8 if tier == "quick" else 12, "case_timeout_s": 60}
+    cfg.update(extra_cfg or {})
     deadline = time.time() + budget
     n = nruns or (1600 if tier == "quick" else 10 ** 8)
     batch = 1600 if tier == "quick" else 16000
     start, viol = 0, []
     while start < n and time.time() < deadline:
-        results = core.run_forked(one_run, PROP, seed, range(start, min(n, start + batch)), cfg, deadline=deadline)
+        results = core.run_forked(one_run, prop or PROP, seed, range(start, min(n, start + batch)), cfg, deadline=deadline)
         for i, r in results:
             if "crash" in r:
                 viol.append((i, {"klass": "crash", "detail": {"signal": r["crash"]}, "run_index": i, "module": mods[i % len(mods)]["name"],
